@@ -7,6 +7,7 @@ import (
 	"go/ast"
 	"go/token"
 	"go/types"
+	"rscheck/rules/reent"
 	"strings"
 
 	"rscheck/core"
@@ -106,7 +107,21 @@ func trimRet(s string) string {
 	return strings.TrimSpace(strings.TrimSuffix(strings.TrimSpace(s), "Ret"))
 }
 
+func reentrant(c *core.Ctx) {
+	var roots []*core.Fn
+	for _, n := range []string{"DecodeDump", "EncodeDump"} {
+		if f := c.FuncOpt(rdbPkg, "", n); f != nil {
+			roots = append(roots, f)
+		}
+	}
+	if f := c.FuncOpt(cupPkg, "", "DecodeDump"); f != nil {
+		roots = append(roots, f)
+	}
+	reent.Check(c, "R7.reentrant", roots, []string{rdbPkg, cupPkg, "pkg/libs/cupcake/rdb/crc64", "pkg/rdb/digest"}, "parallel decode / restore workers")
+}
+
 func Run(c *core.Ctx) {
+	defer reentrant(c)
 	pk := c.Pkg(rdbPkg)
 	cup := c.Pkg(cupPkg)
 	mod := c.Pkg(cupMod)
